@@ -58,12 +58,12 @@ func (varsScen) Gen(r *Rng, cfg GenConfig) any {
 		case k < 6:
 			v.Kind, v.Args = "str", []string{vaValue(r)}
 		case k < 8:
-			v.Kind, v.Args = "join", []string{"{PROJ}", Pick(r, []string{"bin", "a/../b", "./x", "out/", "d//e", "link", "link/data.txt", "real/data.txt"})}
+			v.Kind, v.Args = "join", []string{"{PROJ}", Pick(r, []string{"bin", "a/../b", "./x", "out/", "d//e", "link", "link/data.txt", "real/data.txt", "$EDITOR", "${TARGET}/bin", "$NAME.d"})}
 			if r.Chance(1, 2) {
 				v.Args = append(v.Args, Pick(r, []string{"app", "..", "f.txt"}))
 			}
 		case k < 10 || true:
-			word := Pick(r, []string{"hello", "v1.2.3", "a b", "x=y"})
+			word := Pick(r, []string{"hello", "v1.2.3", "a b", "x=y", "'$EDITOR'", "'${TARGET}' x", "'$NAME'"})
 			v.Kind, v.Args = "exec", []string{Pick(r, []string{"echo ", "echo   ", "echo -n "}) + word + Pick(r, []string{"", " ", "   "})}
 			if r.Chance(1, 8) {
 				v.Args = []string{Pick(r, []string{"exit 3", "false", "echo oops && exit 1"})}
@@ -113,8 +113,9 @@ func vaModelValue(v VarDef, proj string) (val string, fails bool) {
 		}
 		rest := strings.TrimPrefix(cmd, "echo")
 		rest = strings.TrimPrefix(strings.TrimLeft(rest, " "), "-n ")
-		// echo joins its words with single spaces; our words contain single spaces only
-		return strings.Join(strings.Fields(rest), " "), false
+		// echo joins its words with single spaces; our words contain single spaces only;
+		// single quotes protect $references from the shell and are removed by it
+		return strings.ReplaceAll(strings.Join(strings.Fields(rest), " "), "'", ""), false
 	}
 }
 
